@@ -69,7 +69,7 @@ func compileVariant(w *W, tree *Node, src string, cfg CaseCfg, label string) (*V
 		return nil, false
 	}
 	if co.Err != nil {
-		if c09Expect(tree, cfg.Opts, cfg.Events) != 0 {
+		if c09Expect(tree, cfg.EffectiveOpts(), cfg.Events) != 0 {
 			// beyond (or, after flattening / event-node insertion, possibly beyond) a capacity limit: a legitimate rejection
 			w.Inc("rejected_by_capacity_limit")
 			return nil, false
@@ -110,6 +110,8 @@ func optVariants(w *W, r *rand.Rand, tree *Node, undefined bool, events int, wit
 			}
 			dcfg := cfgFor(tree, base, undefined)
 			dcfg.Events = events
+			eff := o
+			dcfg.Directive = &eff
 			dsrc := o.Directive(r) + src
 			if r.Intn(4) == 0 {
 				dsrc = "; a plain comment first\n" + dsrc
@@ -117,6 +119,7 @@ func optVariants(w *W, r *rand.Rand, tree *Node, undefined bool, events int, wit
 			if v, ok := compileVariant(w, tree, dsrc, dcfg, "directive"); ok {
 				v.Directive = true
 				v.Cfg.Opts = o // effective subset
+				v.Cfg.Directive = nil
 				vs = append(vs, v)
 			}
 		}
